@@ -6,10 +6,11 @@ on a MemPipe) and the real client-side ``ClientWebSocketResponse`` (``ClientSess
 external events*:
 
     recv / send / close      application tasks calling ws.receive() (loop), ws.send_str(), ws.close(code=..)
-    p_text / p_ping / p_close  the peer writes a data frame, a ping, a close frame with a code
+    p_text / p_ping / p_pong / p_close  the peer writes a data frame, a ping, a pong, a close frame with a code
     p_eof / lost / lost_err  the peer closes its end / the transport is dropped without / with an error
     cancel_recv / cancel_close  task.cancel() of the task blocked in receive() / close()
     tick                     virtual time jumps to the next pending timer (heartbeat, pong, receive, close timeout)
+    wait                     1 s of virtual time passes (less than every configured timeout)
 
 each followed by `gap` loop iterations (0, 1, 2) or a full settle().  Every schedule is re-executed from scratch;
 the DFS is pruned on an abstract state signature; random longer schedules complement it.
@@ -39,10 +40,11 @@ TECHNIQUE = (
 LEVEL_TEXT = (
     "Fault enumeration: for each side (server WebSocketResponse behind the real RequestHandler, client ClientWebSocketResponse "
     "from ws_connect) and each configuration cell (autoclose, autoping, heartbeat, receive timeout on/off), every schedule of up to "
-    "5-6 external events out of {receiver/sender/closer task start, peer text/ping/close frame, peer EOF, connection lost "
-    "with/without error, cancel of the receiver/closer, jump to the next timer}, each followed by 0/1/2 loop iterations or a full "
-    "settle, is re-executed from scratch (DFS pruned on an abstract state signature; truncated cells are reported as not "
-    "exhaustive); random schedules of up to 14 events on top. Unbounded liveness is restated as bounded progress: after the "
+    "4 (quick) / 5 (thorough) external events out of {receiver/sender/closer task start (two closers allowed), peer "
+    "text/ping/pong/close frame, peer EOF, connection lost with/without error, cancel of the receiver/closer, jump to the next "
+    "timer, 1 s wait}, each followed by 0/1(/2) loop iterations or a full settle, is re-executed from scratch and driven to the "
+    "end (DFS pruned on an abstract state signature; truncated cells are reported as not exhaustive); random schedules of up to "
+    "14 events on top. Unbounded liveness is restated as bounded progress: after the "
     "terminal event and an advance of virtual time past every configured timeout no task may still be inside receive()/close()."
 )
 RULE = (
@@ -55,7 +57,10 @@ ASSUMPTIONS = [
     "the peer is a raw-frame script without aiohttp code; frames written by the aiohttp side are decoded by an own RFC 6455 5.2 frame reader",
     "MemPipe transport fidelity (one connection_lost via call_soon, FIFO, no re-entrant delivery) - engine contract tests",
     "external events are injected only at loop-iteration boundaries; call_soon order is never permuted",
-    "W5 judges only the unambiguous endings (clean handshake without any fault / drop before any close frame / pong timeout / close timeout); mixed endings are counted as grey",
+    "W5 follows RFC 6455 7.1.5 in the two unambiguous directions only: no Close frame from the peer ever reached the aiohttp side -> 1006; the peer's Close frame reached it, it wrote its own Close frame and the schedule contains no drop/cancel/timer -> the peer's code. A Close frame received but a disturbed handshake (tests pin 1006 for some of these, e.g. test_abnormal_closure_when_server_does_not_receive) is grey and counted",
+    "profile P-closed-means-closing (docs/web_reference.rst 'closed: True if connection has been closed or in process of closing'): W2 is judged only at quiescent points where no task is inside close()/receive(), and at the very end",
+    "receive() ending with the configured receive-timeout TimeoutError is a documented outcome (web_reference.rst receive(): ':raise asyncio.TimeoutError'), not a blocked receiver",
+    "server side: receive() is only ever called from the request-handler task (docs note 'Can only be called by the request handling task'); close()/send_str() come from other tasks (docs: 'It is safe to call close() from different task'); an injected cancel of the receiver is swallowed by the handler the way asyncio.timeout() does it",
 ]
 FILES = [
     "aiohttp/web_ws.py",
@@ -77,7 +82,7 @@ ANCHORS = [
     "aiohttp.client_ws:ClientWebSocketResponse._pong_not_received",
     "aiohttp.client_ws:ClientWebSocketResponse._handle_ping_pong_exception",
 ]
-SHARD_TIMEOUT = {"quick": 900, "thorough": 5400}
+SHARD_TIMEOUT = {"quick": 1800, "thorough": 7200}
 
 GUID = b"258EAFA5-E914-47DA-95CA-C5AB0DC85B11"  # RFC 6455 1.3
 OP_CONT, OP_TEXT, OP_BIN, OP_CLOSE, OP_PING, OP_PONG = 0, 1, 2, 8, 9, 10
@@ -89,6 +94,10 @@ RECV_TIMEOUT = 2.5
 PEER_CODE = 4001  # the peer's close code (private-use range, distinguishable from every default)
 LOCAL_CODE = 1001  # the code the local closer passes to close()
 ROUNDING = 1.0  # calculate_timeout_when / ceil_timeout round up to the next whole second above the ceil threshold
+
+WAIT_STEP = 1.0  # the "wait" event: less than every configured timeout
+CEIL_THRESHOLD = 5.0  # aiohttp rounds deadlines up to whole seconds only for timeouts above this (helpers.calculate_timeout_when)
+CLOSE_BOUND = CLOSE_TIMEOUT + (ROUNDING if CLOSE_TIMEOUT > CEIL_THRESHOLD else 0.0) + 1e-6
 
 GAP_SETTLE = -1
 
@@ -183,21 +192,21 @@ QUICK_CELLS = [
 def shards(tier, seed):
     q = tier == "quick"
     out = []
-    cl = QUICK_CELLS if q else cells()
-    for i, c in enumerate(cl):
-        out.append(
-            {
-                "kind": "dfs",
-                "sub": i,
-                "cell": list(c),
-                "max_events": 5 if q else 6,
-                "max_states": 1500 if q else 60000,
-                "gaps": [GAP_SETTLE, 0, 1] if q else [GAP_SETTLE, 0, 1, 2],
-                "max_nosettle": 2 if q else 3,
-            }
-        )
-    for i in range(4 if q else 32):
-        out.append({"kind": "random", "sub": 100 + i, "n": 500 if q else 12000})
+    if q:
+        for i, c in enumerate(QUICK_CELLS):
+            out.append({"kind": "dfs", "sub": i, "cell": list(c), "max_events": 4, "max_states": 40000, "gaps": [GAP_SETTLE, 0, 1], "max_nosettle": 1 if c[3] else 2,
+                        "maxc": {"send": 1, "wait": 2, "tick": 3}})
+        for i in range(4):
+            out.append({"kind": "random", "sub": 100 + i, "n": 6000})
+        return out
+    for i, c in enumerate(cells()):
+        # all 32 cells: every schedule of <= 5 events with gaps {settle, 0, 1}
+        out.append({"kind": "dfs", "sub": i, "cell": list(c), "max_events": 5, "max_states": 150000, "gaps": [GAP_SETTLE, 0, 1], "max_nosettle": 2})
+    for i, c in enumerate(cells()):
+        # and every schedule of <= 4 events with gaps {settle, 0, 1, 2}, up to 3 non-settled gaps
+        out.append({"kind": "dfs", "sub": 40 + i, "cell": list(c), "max_events": 4, "max_states": 150000, "gaps": [GAP_SETTLE, 0, 1, 2], "max_nosettle": 3})
+    for i in range(32):
+        out.append({"kind": "random", "sub": 100 + i, "n": 40000})
     return out
 
 
@@ -282,6 +291,36 @@ class RawPeer(asyncio.Protocol):
 # one execution
 
 
+class Tap(asyncio.Protocol):
+    """Observation-only proxy between the MemTransport and the real aiohttp protocol: notes whether bytes reached the
+    aiohttp side after the session had already been marked closed (classifier input, not an oracle)."""
+
+    def __init__(self, real, run):
+        self.real = real
+        self.run = run
+
+    def connection_made(self, tr):  # pragma: no cover - attached after connection_made
+        self.real.connection_made(tr)
+
+    def data_received(self, data):
+        ws = self.run.ws
+        if ws is not None and ws.closed:
+            self.run.data_after_closed += 1
+        return self.real.data_received(data)
+
+    def eof_received(self):
+        return self.real.eof_received()
+
+    def connection_lost(self, exc):
+        return self.real.connection_lost(exc)
+
+    def pause_writing(self):
+        return self.real.pause_writing()
+
+    def resume_writing(self):
+        return self.real.resume_writing()
+
+
 class Closer:
     __slots__ = ("task", "t0", "t1", "result", "exc", "entered", "cancelled_by_harness")
 
@@ -297,10 +336,13 @@ class Closer:
 class WsRun:
     """One schedule on a fresh loop + fresh real objects."""
 
-    MAX = {"recv": 2, "send": 2, "close": 2, "p_text": 1, "p_ping": 1, "p_close": 1, "tick": 4, "cancel_recv": 1, "cancel_close": 1}
+    MAX = {"recv": 2, "send": 2, "close": 2, "p_text": 1, "p_ping": 1, "p_close": 1, "p_pong": 1, "tick": 4, "wait": 3, "cancel_recv": 1, "cancel_close": 1}
 
-    def __init__(self, cell, rseed=0):
+    def __init__(self, cell, rseed=0, maxc=None):
         from vlib.vloop import VLoop
+
+        if maxc:
+            self.MAX = dict(self.MAX, **maxc)
 
         self.cell = tuple(cell)
         self.side, self.autoclose, self.autoping, self.hb, self.rt = self.cell
@@ -323,7 +365,8 @@ class WsRun:
         self.senders: list = []  # [task, outcome]
         # facts for the oracle
         self.facts: set = set()
-        self.peer_close_delivered_open = False
+        self.peer_close_end = None
+        self.data_after_closed = 0
         self.first_fault = None
         self.timers_fired = 0
         self.setup_error = None
@@ -360,7 +403,17 @@ class WsRun:
                 try:
                     while True:
                         run.cmd_gate = lp.create_future()
-                        cmd = await run.cmd_gate
+                        try:
+                            cmd = await run.cmd_gate
+                        except asyncio.CancelledError:
+                            if not run.recv_cancel_injected:
+                                raise
+                            # the injected cancel hit before receive() was entered (asyncio.timeout()-style: swallow)
+                            run.recv_cancel_injected = False
+                            asyncio.current_task().uncancel()
+                            run.recv_live = False
+                            run.recv_log.append(("cancelled",))
+                            continue
                         if cmd == "recv":
                             await run._recv_loop()
                         else:
@@ -369,6 +422,7 @@ class WsRun:
                     return ws
                 except BaseException as e:
                     run.handler_exc = type(e).__name__
+                    run.handler_state = "failed"
                     raise
 
             async def mk():
@@ -386,6 +440,7 @@ class WsRun:
                 self.peer.start_client_handshake()
             lp.settle(20000)
             self.tr = self.pipe.b
+            self.tr.protocol = Tap(self.server_proto, self)
             if self.ws is None or not self.peer.handshake_ok:
                 self.setup_error = f"server handshake failed: head={self.peer.head[:80]!r}"
         else:
@@ -415,6 +470,7 @@ class WsRun:
             self.session, self.ws = t.result()
             lp.settle(20000)
             self.tr = self.pipe.a
+            self.tr.protocol = Tap(self.tr.protocol, self)
         self.wire_start = len(self.tr.written)  # frames start after the handshake bytes
         self.peer_wire_start = None
 
@@ -445,14 +501,29 @@ class WsRun:
                 return
             raise
         except BaseException as e:  # noqa
+            from aiohttp import ClientError
+
+            # "raises a connection error": ConnectionError / ClientError family, or the documented receive-timeout TimeoutError
+            ok = isinstance(e, (ConnectionError, ClientError, asyncio.TimeoutError))
             self.recv_log.append(("exc", type(e).__name__))
+            if not ok:
+                self.viol(f"W4:receive-raised:{type(e).__name__}", f"ws.receive() raised {e!r}, neither a terminal message nor a connection error; messages so far {self.recv_log}")
             return
         finally:
             self.recv_live = False
 
+    def _recv_task_done(self, t):
+        if self.recv_live and t is self.recv_task:
+            # cancelled before its first step: receive() was never entered
+            self.recv_live = False
+            self.recv_log.append(("cancelled",))
+
     async def _closer(self, c: Closer):
         lp = self.loop
         c.entered = True
+        self.facts.add("close-called")
+        if any(o is not c and o.entered and o.t1 is None for o in self.closers):
+            self.facts.add("concurrent-closers")
         c.t0 = lp.time()
         try:
             c.result = await self.ws.close(code=LOCAL_CODE)
@@ -493,6 +564,8 @@ class WsRun:
             for k in ("p_text", "p_ping", "p_close"):
                 if self.n(k) < M[k]:
                     ev.append(k)
+            if self.hb and self.n("p_pong") < M["p_pong"]:
+                ev.append("p_pong")  # the peer answers (or pre-empts) the heartbeat ping
             ev.append("p_eof")
         if not self.tr.lost_scheduled:
             ev.append("lost")
@@ -503,6 +576,8 @@ class WsRun:
             ev.append("cancel_close")
         if self.loop.next_timer() is not None and self.n("tick") < M["tick"]:
             ev.append("tick")
+            if self.n("wait") < M["wait"]:
+                ev.append("wait")
         return ev
 
     def apply(self, kind, gap=GAP_SETTLE):
@@ -511,13 +586,14 @@ class WsRun:
         self.counts[kind] = self.n(kind) + 1
         if kind == "recv":
             self.recv_started += 1
+            self.recv_live = True
             if self.side == "server":
-                self.recv_live = True
+                self.recv_task = self.handler_task
                 self.cmd_gate.set_result("recv")
             else:
-                self.recv_live = True
                 with lp.running():
                     self.recv_task = asyncio.Task(self._recv_loop(), loop=lp)
+                self.recv_task.add_done_callback(self._recv_task_done)
         elif kind == "send":
             slot = [None, "pending"]
             self.senders.append(slot)
@@ -528,17 +604,16 @@ class WsRun:
             self.closers.append(c)
             with lp.running():
                 c.task = asyncio.Task(self._closer(c), loop=lp)
-            self.facts.add("close-called")
         elif kind == "p_text":
             self.peer.frame(OP_TEXT, b"hello")
         elif kind == "p_ping":
             self.peer.frame(OP_PING, b"pp")
+        elif kind == "p_pong":
+            self.peer.frame(OP_PONG, b"")
         elif kind == "p_close":
             self.peer.frame(OP_CLOSE, struct.pack(">H", PEER_CODE) + b"bye")
             self.facts.add("peer-close-sent")
-            if self.first_fault is None and not self.tr.closing:
-                # whether it is delivered is decided later (transport may close first); see _peer_close_delivered()
-                pass
+            self.peer_close_end = len(self.peer.transport.written)  # delivered iff transport.delivered reaches this offset
         elif kind == "p_eof":
             self.peer.transport.close()
             self._fault("p_eof")
@@ -564,9 +639,16 @@ class WsRun:
             if w is not None:
                 self.timers_fired += 1
                 self.facts.add("tick")
-                self._note_timer_kinds()
+                cands = self._timer_candidates()
                 # virtual time jumps to the next timer; everything that becomes due runs
                 lp.advance(max(0.0, w - lp.time()), max_iters=20000)
+                self._note_fired(cands)
+        elif kind == "wait":
+            # some time passes, less than any configured timeout (only meaningful while a timer is pending)
+            self.facts.add("wait")
+            cands = self._timer_candidates()
+            lp.advance(WAIT_STEP, max_iters=20000)
+            self._note_fired(cands)
         if gap == GAP_SETTLE:
             lp.settle(20000)
             self.check_settled()
@@ -579,12 +661,13 @@ class WsRun:
             self.first_fault = (kind, self.aio_close_frames(), "peer-close-sent" in self.facts, bool(self.ws.closed))
         self.facts.add("fault")
 
-    def _note_timer_kinds(self):
-        ws = self.ws
-        w = self.loop.next_timer()
-        for name in ("_heartbeat_cb", "_pong_response_cb"):
-            h = getattr(ws, name, None)
-            if h is not None and not h.cancelled() and abs(h.when() - w) < 1e-9:
+    def _timer_candidates(self):
+        return [(name, h) for name in ("_heartbeat_cb", "_pong_response_cb") if (h := getattr(self.ws, name, None)) is not None and not h.cancelled()]
+
+    def _note_fired(self, cands):
+        now = self.loop.time()
+        for name, h in cands:
+            if not h.cancelled() and h.when() <= now + 1e-9 and h not in self.loop._scheduled:
                 self.facts.add("timer:" + name)
 
     # ---- observation ---------------------------------------------------------------------------------
@@ -622,19 +705,25 @@ class WsRun:
     def check_settled(self):
         """W2 at an intermediate quiescent point: closed, and nobody is inside close()/receive() any more."""
         ws = self.ws
+        if ws.closed and not self.tr.closing and (not self.closers_idle() or self.recv_live):
+            # P-closed-means-closing (docs/web_reference.rst "closed: True if connection has been closed or in process of
+            # closing"; client_reference.rst "True if close() has been called"): the flag is raised when close() starts, the
+            # transport goes away when the handshake ends - not judged while somebody is still inside close()/receive()
+            self.grey["profile:P-closed-means-closing"] = self.grey.get("profile:P-closed-means-closing", 0) + 1
         if ws.closed and self.closers_idle() and not self.recv_live and not self.loop._ready:
             if self.side == "server" and self.handler_state != "prepared":
                 return
             if not self.tr.closing:
-                self.viol("W2:closed-but-transport-open", f"ws.closed is True, no task is inside close()/receive(), transport.is_closing() is False; close_code={ws.close_code}")
+                how = ":after-close-cancelled" if any(c.cancelled_by_harness and c.entered for c in self.closers) else ""
+                self.viol("W2:closed-but-transport-open" + how, f"ws.closed is True, no task is inside close()/receive(), transport.is_closing() is False; close_code={ws.close_code}; closers {[(c.result, c.exc) for c in self.closers]}")
+            self._w6_timers("at a quiescent point of the schedule")
 
     # ---- end game -----------------------------------------------------------------------------------
     def peer_close_delivered(self):
         """did the peer's close frame reach the aiohttp protocol (bytes delivered while its transport was open)?"""
-        if "peer-close-sent" not in self.facts:
+        if self.peer_close_end is None:
             return False
-        ptr = self.peer.transport
-        return ptr.delivered >= len(ptr.written) and not ptr.out
+        return self.peer.transport.delivered >= self.peer_close_end
 
     def final_checks(self):
         lp = self.loop
@@ -672,15 +761,27 @@ class WsRun:
                 with lp.running():
                     c.task = asyncio.Task(self._closer(c), loop=lp)
         lp.settle(20000)
+        # let the close handshake run out (close timeout), one timer at a time; the moment everybody is out of close()
+        # the session must hold no timer any more
+        for _ in range(12):
+            busy = any(c.task is not None and not c.task.done() for c in self.closers) or (self.side == "server" and self.handler_state == "returning" and not self.handler_task.done())
+            w = lp.next_timer()
+            if not busy or w is None:
+                break
+            lp.advance(max(0.0, w - lp.time()), max_iters=20000)
+        if ws.closed and self.closers_idle() and not self.recv_live:
+            self._w6_timers("right after close() returned")
         lp.advance(total, max_iters=200000)
         lp.settle(20000)
         self._w4(True, "after the final close()")
-        if self.side == "server" and self.handler_state == "prepared" and not self.recv_live:
-            self.viol("W4:close-blocked-forever", "handler returned the response but write_eof()/close() never finished")
+        if self.side == "server" and self.handler_state == "returning" and not self.handler_task.done():
+            self.viol("W4:close-blocked-forever", "the handler returned the response but write_eof() -> close() never finished")
+        if self.side == "server" and self.handler_state == "failed":
+            self.viol(f"harness:handler-failed:{self.handler_exc}", "the handler coroutine of the harness ended with an exception")
         # W3
         for i, c in enumerate(self.closers):
             if c.t0 is not None and c.t1 is not None and c.exc is None:
-                if c.t1 - c.t0 > CLOSE_TIMEOUT + ROUNDING + 1e-6:
+                if c.t1 - c.t0 > CLOSE_BOUND:
                     self.viol("W3:close-exceeded-timeout", f"close() #{i} took {c.t1 - c.t0:.3f}s of virtual time; close timeout is {CLOSE_TIMEOUT}")
             if c.exc is not None and not (c.exc == "CancelledError" and c.cancelled_by_harness):
                 self.viol(f"W3:close-raised:{c.exc}", f"close() #{i} raised {c.exc}")
@@ -703,52 +804,49 @@ class WsRun:
                 self.viol("W4:close-blocked-forever", f"close() #{i} still pending {when}; closed={self.ws.closed}")
 
     def _w5(self):
+        """RFC 6455 7.1.5: the connection close code is the status code of the first Close frame *received*; if the
+        connection went away and no Close frame was received it is 1006.  Judged in the two unambiguous directions:
+        (a) no Close frame from the peer ever reached the aiohttp side -> 1006;
+        (b) the peer's Close frame reached the aiohttp side, the aiohttp side wrote its own Close frame, and nothing else
+            went wrong in the schedule (no drop, no cancel, no timer fired) -> the peer's code.
+        Everything else (a close frame was received but the handshake was then disturbed) is grey."""
         ws = self.ws
         got = ws.close_code
-        ff = self.first_fault
-        sched_kinds = [k for k, _ in self.events]
-        faults_in_schedule = [k for k in sched_kinds if k in ("p_eof", "lost", "lost_err", "cancel_recv", "cancel_close")]
-        exp = None
-        why = None
-        aio_close = self.aio_close_frames()
+        kinds = [k for k, _ in self.events]
+        disturbed = [k for k in kinds if k in ("p_eof", "lost", "lost_err", "cancel_recv", "cancel_close", "tick", "wait")]
         recv_timeout_hit = any(e == ("exc", "TimeoutError") for e in self.recv_log)
-        if (
-            "peer-close-sent" in self.facts
-            and self.peer_close_delivered()
-            and aio_close == 1
-            and not faults_in_schedule
-            and "tick" not in self.facts
-            and not recv_timeout_hit
-            and (ff is None or ff[0] == "final-eof" and ff[1] >= 1 and ff[2])
-        ):
-            exp, why = PEER_CODE, "clean-handshake"
-        elif ff is not None and ff[0] in ("p_eof", "lost", "lost_err", "final-eof") and ff[1] == 0 and not ff[2] and not ff[3] and "tick" not in self.facts and "cancel" not in self.facts and not recv_timeout_hit:
-            exp, why = 1006, "dropped-before-any-close"
-        elif (
-            "peer-close-sent" not in self.facts
-            and not [k for k in faults_in_schedule]
-            and "close-called" in self.facts
-            and self.closers
-            and self.closers[0].result is True
-            and self.closers[0].t1 - self.closers[0].t0 >= CLOSE_TIMEOUT - 1e-9
-            and not recv_timeout_hit
-            and "timer:_heartbeat_cb" not in self.facts
-            and "timer:_pong_response_cb" not in self.facts
-        ):
-            exp, why = 1006, "close-timeout"
-        elif (
-            self.hb
-            and not sched_kinds_have(sched_kinds, ("p_close", "close", "p_eof", "lost", "lost_err", "cancel_recv", "cancel_close"))
-            and not recv_timeout_hit
-            and aio_close == 0
-        ):
-            exp, why = 1006, "pong-timeout"
+        aio_close = self.aio_close_frames()
+        exp = why = stat = None
+        if not self.peer_close_delivered():
+            exp, why = 1006, "no-peer-close"
+            if "timer:_pong_response_cb" in self.facts:
+                stat = "pong-timeout"
+            elif self.first_fault is not None and self.first_fault[0] != "final-eof" and self.first_fault[1] == 0:
+                stat = "dropped"
+            elif aio_close:
+                stat = "local-close-unanswered"
+            else:
+                stat = "other"
+        elif aio_close == 1 and not disturbed and not recv_timeout_hit and (self.first_fault is None or self.first_fault[1] >= 1):
+            exp, why, stat = PEER_CODE, "clean-handshake", "clean-handshake"
         if exp is None:
             self.grey["W5:unjudged-ending"] = self.grey.get("W5:unjudged-ending", 0) + 1
+            self.grey[f"W5:unjudged-code:{got}"] = self.grey.get(f"W5:unjudged-code:{got}", 0) + 1
             return
-        self.grey["W5:judged:" + why] = self.grey.get("W5:judged:" + why, 0) + 1
+        self.grey["W5:judged:" + stat] = self.grey.get("W5:judged:" + stat, 0) + 1
         if got != exp:
-            self.viol(f"W5:close-code:{why}:{exp}-got-{got}", f"ending classified as {why}: expected close_code {exp}, got {got}; receiver saw {self.recv_log}")
+            # classifier: which observable circumstances of the witness accompany the wrong code
+            mods = ""
+            if any(e[:2] == ("msg", "CLOSING") for e in self.recv_log):
+                mods = ":receiver-woken-by-close"
+            elif any(c.cancelled_by_harness and c.entered for c in self.closers):
+                mods = ":close-cancelled"
+            elif "concurrent-closers" in self.facts:
+                mods = ":concurrent-closers"
+            self.viol(
+                f"W5:close-code:{why}{mods}:{exp}-got-{got}",
+                f"ending classified as {why} ({stat}): expected close_code {exp}, got {got}; receiver saw {self.recv_log}; closers {[(c.result, c.exc) for c in self.closers]}",
+            )
 
     def _w6(self):
         lp = self.loop
@@ -756,15 +854,34 @@ class WsRun:
         for c in lp.captured:
             et = c.get("exc_type")
             self.viol(f"W6:loop-exception:{et or 'message'}", f"{c.get('message')} {c.get('exception')} {c.get('future')}")
-        for name in ("_heartbeat_cb", "_pong_response_cb"):
-            h = getattr(ws, name, None)
-            if h is not None and not h.cancelled():
-                self.viol("W6:leaked-timer", f"ws.{name} still armed after close (when={h.when() - lp.time():+.2f}s)")
+        self._w6_timers("at the end")
         pt = getattr(ws, "_ping_task", None)
         if pt is not None and not pt.done():
             self.viol("W6:leaked-ping-task", "ws._ping_task still pending after close")
+        mine = {id(c.task) for c in self.closers} | {id(s[0]) for s in self.senders} | {id(self.recv_task)}
+        for t in lp.live_tasks():
+            if id(t) in mine:
+                continue  # judged by W4
+            co = t.get_coro()
+            self.viol(f"W6:leaked-task:{getattr(co, '__qualname__', type(co).__name__)}", f"task still pending at the end: {t!r}"[:300])
         if self.pipe.escaped:
             self.viol("W6:protocol-callback-exception", f"{self.pipe.escaped[:2]}")
+
+    def ws_timers(self):
+        """live timer handles in the loop whose callback is a bound method of the ws object"""
+        ws = self.ws
+        return [h for h in self.loop._scheduled if not h._cancelled and getattr(h._callback, "__self__", None) is ws]
+
+    def _w6_timers(self, when):
+        hs = self.ws_timers()
+        if hs:
+            lp = self.loop
+            how = "heartbeat-rearmed-by-data-after-close" if self.data_after_closed else "not-cancelled-by-close"
+            self.viol(
+                "W6:leaked-timer:" + how,
+                f"{when}: session closed, nobody inside close()/receive(), but the loop still holds timer(s) of the ws object: "
+                f"{[(getattr(h._callback, '__name__', '?'), round(h._when - lp.time(), 2)) for h in hs]}",
+            )
 
     def leftover(self):
         """after finish(): live tasks / timers that belong to nobody"""
@@ -828,8 +945,8 @@ def sched_kinds_have(kinds, what):
 # --------------------------------------------------------------------------------------------------
 
 
-def execute(cell, schedule, rseed=0, final=False):
-    run = WsRun(cell, rseed)
+def execute(cell, schedule, rseed=0, final=False, maxc=None):
+    run = WsRun(cell, rseed, maxc)
     try:
         if run.setup_error:
             raise RuntimeError(run.setup_error)
@@ -838,11 +955,9 @@ def execute(cell, schedule, rseed=0, final=False):
                 run.events.append(("DISABLED:" + kind, gap))
                 continue
             run.apply(kind, gap)
-            if run.violations:
-                break
         sig = run.signature()
-        en = run.enabled() if not run.violations else []
-        if final and not run.violations:
+        en = run.enabled()
+        if final:
             run.final_checks()
         return run, sig, en
     finally:
@@ -863,7 +978,7 @@ def nontrivial(run):
     return k >= 2
 
 
-def shrink(cell, schedule, mech, rseed, budget=60):
+def shrink(cell, schedule, mech, rseed, budget=60, maxc=None):
     """ddmin-lite: drop single events / turn gaps into settle while the same mechanism is reported."""
     cur = list(schedule)
     changed = True
@@ -873,7 +988,7 @@ def shrink(cell, schedule, mech, rseed, budget=60):
             cand = cur[:i] + cur[i + 1 :]
             budget -= 1
             try:
-                r, _s, _e = execute(cell, cand, rseed, final=True)
+                r, _s, _e = execute(cell, cand, rseed, final=True, maxc=maxc)
             except Exception:
                 continue
             if any(m == mech for m, _ in r.violations):
@@ -887,7 +1002,7 @@ def shrink(cell, schedule, mech, rseed, budget=60):
             cand = cur[:i] + [(cur[i][0], GAP_SETTLE)] + cur[i + 1 :]
             budget -= 1
             try:
-                r, _s, _e = execute(cell, cand, rseed, final=True)
+                r, _s, _e = execute(cell, cand, rseed, final=True, maxc=maxc)
             except Exception:
                 continue
             if any(m == mech for m, _ in r.violations):
@@ -902,7 +1017,7 @@ def fmt(schedule):
     return [k if g == GAP_SETTLE else f"{k}!{g}" for k, g in schedule]
 
 
-def report(rec, cell, schedule, run, kind, rseed=0, do_shrink=True):
+def report(rec, cell, schedule, run, kind, rseed=0, do_shrink=True, maxc=None):
     rec.case((list(cell), [list(x) for x in schedule]), nontrivial=nontrivial(run))
     rec.count("schedules")
     rec.count(f"schedules:{run.side}")
@@ -923,13 +1038,16 @@ def report(rec, cell, schedule, run, kind, rseed=0, do_shrink=True):
         if do_shrink and mech not in _reported:
             _reported.add(mech)
             try:
-                sch = shrink(cell, sch, mech.split(":", 1)[1] and mech, rseed)
+                sch = shrink(cell, sch, mech, rseed, maxc=maxc)
+                if sch != list(schedule):
+                    r2, _s, _e = execute(cell, sch, rseed, final=True, maxc=maxc)
+                    summ = next((x for m, x in r2.violations if m == mech), summ)
             except Exception:
                 sch = list(schedule)
         rec.violation(
             mech,
             f"cell(side,autoclose,autoping,heartbeat,recv_timeout)={list(cell)} schedule={fmt(sch)} :: {summ}",
-            {"cell": list(cell), "schedule": [[k, g] for k, g in sch], "kind": kind, "rseed": rseed},
+            {"cell": list(cell), "schedule": [[k, g] for k, g in sch], "kind": kind, "rseed": rseed, "maxc": maxc},
         )
 
 
@@ -941,16 +1059,16 @@ def dfs(spec, rec):
     truncated = [False]
     gaps = spec["gaps"]
     rseed = spec["seed"]
+    maxc = spec.get("maxc")
 
     def explore(schedule):
         if stats["states"] >= budget:
             truncated[0] = True
             return
-        run, sig, en = execute(cell, schedule, rseed=rseed)
+        run, sig, en = execute(cell, schedule, rseed=rseed, maxc=maxc)
         stats["transitions"] += 1
-        if run.violations:
-            report(rec, cell, schedule, run, "dfs", rseed=rseed)
-            return
+        # breaches are recorded (by the final run below) but never cut the exploration short: a listed finding must not
+        # hide the schedules behind it
         nos = sum(1 for _k, g in schedule if g != GAP_SETTLE)
         key = (sig, nos)
         if key in seen:
@@ -960,23 +1078,22 @@ def dfs(spec, rec):
         stats["states"] += 1
         rec.sig("abstract-state", [repr(x) for x in sig])
         if len(schedule) >= spec["max_events"] or not en:
-            run2, _s, _e = execute(cell, schedule, rseed=rseed, final=True)
-            report(rec, cell, schedule, run2, "dfs", rseed=rseed)
+            run2, _s, _e = execute(cell, schedule, rseed=rseed, final=True, maxc=maxc)
+            report(rec, cell, schedule, run2, "dfs", rseed=rseed, maxc=maxc)
             stats["complete"] += 1
             if stats["complete"] % 150 == 1:
                 rec.sample({"cell": list(cell), "schedule": fmt(schedule), "recv": run2.recv_log, "close": [(c.result, c.exc) for c in run2.closers],
                             "close_code": run2.ws.close_code, "frames": [OPNAME.get(f[0]) for f in run2.aio_frames()]})
             return
         # every prefix is also judged as a complete schedule (driven to the end)
-        run2, _s, _e = execute(cell, schedule, rseed=rseed, final=True)
-        report(rec, cell, schedule, run2, "dfs", rseed=rseed)
-        if run2.violations:
-            return
+        run2, _s, _e = execute(cell, schedule, rseed=rseed, final=True, maxc=maxc)
+        report(rec, cell, schedule, run2, "dfs", rseed=rseed, maxc=maxc)
+        # end-state breaches (W3-W6) classify the ending of *this* schedule; longer schedules are still explored
         for ev in en:
             for g in gaps:
                 if g != GAP_SETTLE and nos >= spec["max_nosettle"]:
                     continue
-                if g != GAP_SETTLE and ev == "tick":
+                if g != GAP_SETTLE and ev in ("tick", "wait"):
                     continue
                 explore(schedule + [(ev, g)])
 
@@ -990,7 +1107,7 @@ def dfs(spec, rec):
         rec.note(f"cell {list(cell)}: state budget {budget} reached; enumeration truncated (reported as not exhaustive)")
 
 
-WEIGHTS = {"recv": 4, "send": 2, "close": 3, "p_text": 2, "p_ping": 2, "p_close": 3, "p_eof": 1, "lost": 0.7, "lost_err": 0.7, "cancel_recv": 1.2, "cancel_close": 1.2, "tick": 2.5}
+WEIGHTS = {"recv": 4, "send": 2, "close": 3, "p_text": 2, "p_ping": 2, "p_close": 3, "p_pong": 1.5, "p_eof": 1, "lost": 0.7, "lost_err": 0.7, "cancel_recv": 1.2, "cancel_close": 1.2, "tick": 2.5, "wait": 2.0}
 
 
 def random_schedules(spec, rec):
@@ -1009,13 +1126,10 @@ def random_schedules(spec, rec):
                     break
                 ev = rng.choices(en, [WEIGHTS[e] for e in en])[0]
                 r = rng.random()
-                gap = GAP_SETTLE if r < 0.55 or ev == "tick" else rng.choice([0, 0, 1, 2, 3])
+                gap = GAP_SETTLE if r < 0.55 or ev in ("tick", "wait") else rng.choice([0, 0, 1, 2, 3])
                 schedule.append((ev, gap))
                 run.apply(ev, gap)
-                if run.violations:
-                    break
-            if not run.violations:
-                run.final_checks()
+            run.final_checks()
             run.captured = list(run.loop.captured)
         finally:
             run.finish()
@@ -1036,5 +1150,5 @@ def run_shard(spec, rec):
 def replay(witness, rec):
     cell = tuple(witness["cell"])
     schedule = [(k, g) for k, g in witness["schedule"]]
-    run, sig, en = execute(cell, schedule, rseed=witness.get("rseed", 0), final=True)
-    report(rec, cell, schedule, run, "replay", rseed=witness.get("rseed", 0), do_shrink=False)
+    run, sig, en = execute(cell, schedule, rseed=witness.get("rseed", 0), final=True, maxc=witness.get("maxc"))
+    report(rec, cell, schedule, run, "replay", rseed=witness.get("rseed", 0), do_shrink=False, maxc=witness.get("maxc"))
